@@ -105,6 +105,12 @@ reg('C09', 'Hypothesis document trees with generator-recorded ground truth × ev
     '(≈ 2·10^5 positions quick, ≈ 10^7 thorough), attribute offsets included.',
     'balanced_inward is two-valued exactly on element boundaries (the statement says "at the position"); documents are well formed by construction.')
 
+reg('C10', 'Hypothesis stylesheet trees with generator-recorded ground truth × every position; oracle = lookup in the record (exact ranges)',
+    'Random stylesheets (rules nested ≤ 4, several top-level rules and top-level variable/custom-property declarations, pseudo selectors, attribute selectors and strings with delimiters, at-rules with parenthesised '
+    'conditions, comments with delimiters at every legal place, url()/nested parentheses with `;` and `:`, empty values) are written by a builder that records every range; match, balanced_outward and balanced_inward are '
+    'compared at every position with the record (≈ 10^5 positions quick, ≈ 5·10^6 thorough).',
+    'match/inward are two-valued between a value end and its `;` and on recorded offsets (both readings of "contains"); declarations are `;`-terminated as in the quantifier; braces are generated inside strings/comments only.')
+
 NOT_APPLICABLE = [
 ]
 
